@@ -10,9 +10,50 @@ from ..mon.client import call
 ID = "C10"
 
 
+CANARY_DOCS = {
+    "gfa2": ["H\tVN:Z:2.0", "S\ts1\t100\t*", "S\ts2\t50\tACGTACGTACGTACGTACGTACGTACGTACGTACGTACGTACGTACGTAC\txx:i:3",
+             "S\ts3\t60\t*", "E\te1\ts1+\ts2+\t90\t100$\t0\t10\t8M2I2M1D", "E\t*\ts2-\ts3+\t0\t5\t0\t5\t*",
+             "G\tg1\ts1-\ts3-\t30\t*", "F\ts1\tread1+\t0\t10\t0\t10\t*", "O\to1\ts1+ e1+ s2+", "U\tu1\ts3 o1 g1"],
+    "gfa1": ["H\tVN:Z:1.0", "S\ta\tACGT", "S\tb\t*\tLN:i:9", "S\tc\tGGGCC", "L\ta\t+\tb\t-\t2M1D1M\tID:Z:l1",
+             "L\tb\t+\tc\t+\t*", "C\tb\t+\ta\t-\t2\t3M\tID:Z:c1", "P\tp1\ta+,b-\t2M1D1M"],
+}
+_canaries = []        # (name, gfa, callable, first answer)
+
+
+def _canary_queries(g, version):
+    out = []
+    for name, kind, fn in CAT.Q:
+        if kind == "gfa":
+            for seed in (1, 2, 3):
+                out.append(("%s.%s#%d" % (version, name, seed), g, (lambda fn=fn, seed=seed: fn(g, purity.Env(g, seed)))))
+    keys = ([("sid", "s1"), ("eid", "e1"), ("gid", "g1"), ("oid", "o1"), ("uid", "u1"), ("name", "s2"), ("slen", 50)]
+            if version == "gfa2" else [("name", "a"), ("ID", "l1"), ("path_name", "p1"), ("from_segment", "a"), ("LN", 9)])
+    for k, v in keys:
+        out.append(("%s.select{%s}" % (version, k), g, (lambda k=k, v=v: g.select({k: v}))))
+    for x in g.lines:
+        out.append(("%s.str(%s)" % (version, x.record_type), g, (lambda x=x: str(x))))
+    return out
+
+
+def _ask(fn):
+    try:
+        return ("ok", purity.canon(fn()))
+    except Exception as e:        # the answer is the class of the exception
+        return ("raise", type(e).__name__)
+
+
 def setup(ctx):
     hooks.RATE = 5
     ctx.notes["catalogue_size"] = len(CAT.Q)
+    # canaries: fixed questions on two fixed graphs, asked before anything else; they are asked
+    # again after every case -- a read-only call which leaves state behind anywhere in the
+    # process (class attributes, module-level caches) changes a later answer
+    with hooks.suspended():
+        for version, doc in CANARY_DOCS.items():
+            g = gfapy.Gfa(doc, version=version)
+            for name, gg, fn in _canary_queries(g, version):
+                _canaries.append((name, gg, fn, _ask(fn)))
+    ctx.notes["canaries"] = len(_canaries)
 
 
 def cases(rng, tier, shard, nshards):
@@ -99,6 +140,15 @@ def run(case, ctx):
             ctx.violation(key, "%s\n  call sequence: %s" % (detail, trace[-6:]))
         if bad:
             return
+    # the canaries give the answers they gave before the first case
+    with hooks.suspended():
+        for name, gg, fn, first in _canaries:
+            now = _ask(fn)
+            ctx.count("canary_answers")
+            if now != first:
+                ctx.violation("later-answer-differs/" + name.split("#")[0],
+                              "%s: before any case %r, now %r\n  calls of this case: %s" % (name, first, now, trace[-12:]))
+                return
     if nontrivial:
         ctx.nontriv([case["lines"], case["vlevel"], case["seed"]])
     ctx.sample({"lines": case["lines"][:6], "vlevel": case["vlevel"], "calls": trace[:15]})
